@@ -1,5 +1,6 @@
 import DirectVerif.Gen.C18
 import DirectVerif.Model.BatchSep
+import DirectVerif.Props.C18
 /-!
 # Bridge C18 — the tables extracted from `/repo` satisfy the decidable predicates the theorems of `Props/C18.lean` need
 -/
@@ -38,5 +39,45 @@ theorem reshapes_keep_batch : reshapeRows.all (fun r => r.2.2 == 1) = true := by
 coil order (integer index at the coil position, `select(coil, const)`, sort / argmax / flip / cumsum …) -/
 theorem no_seed_no_random_no_coil_order :
     seedCalls = [] ∧ randomCalls.all (fun r => r.2.2 == 1) = true ∧ coilOrderOps = [] := by decide
+
+/-! ## phase 3: per-function primitive tables, per-model function lists, effects -/
+
+/-- **every batched primitive of every forward / reconstruction path is per-sample** (reductions, along-axis operations,
+permutes, transposes, reshapes, flattens, subscripts at the batch position, functionals with batch statistics,
+whole-tensor queries), and every `batch * coil` fold is un-folded in the same function — or it is the known finding -/
+theorem prim_table_accounted : primTable.all FuncRow.accounted = true := by decide +kernel
+
+/-- the only function with a rejected primitive is `ConjGrad.cg` (the batch-mean stopping test) -/
+theorem prim_table_ok_except_cg : primTable.all (fun f => f.ok || f.name == "ConjGrad.cg") = true := by decide +kernel
+
+/-- FINDING witness in the new table -/
+theorem conjgrad_stop_prim_current_violates :
+    (primTable.any fun f => f.prims.any fun p => !p.ok && p.op == "mean" && p.fn == "ConjGrad.cg") = true := by decide +kernel
+
+def cgIndex : Nat := primTable.findIdx fun f => f.name == "ConjGrad.cg"
+
+/-- **every zoo model** executes only functions whose primitives are per-sample — except the models that run `ConjGrad.cg` -/
+theorem zoo_models_ok_except_cg : modelFuncs.all (fun m => m.ok primTable || m.2.contains cgIndex) = true := by decide +kernel
+
+theorem zoo_models_accounted : modelFuncs.all (ModelRow.accounted primTable) = true := by decide +kernel
+
+/-- the trace is not vacuous: it sees denoisers, recurrent and unrolled models, and every model executes something -/
+theorem zoo_models_nonvacuous :
+    (modelFuncs.all fun m => !m.2.isEmpty && m.2.all (· < primTable.length)) = true ∧
+      (modelFuncs.isEmpty || modelFuncs.any fun m => m.2.contains cgIndex) = true := by decide +kernel
+
+/-- **closure, instantiated**: for every zoo model whose row passes, any data-flow graph over the primitives of the
+functions it executes denotes a separable operation under every sound interpretation (`C18.stdInterp_sound` gives one) -/
+theorem zoo_models_separable (m : ModelRow) (_hm : m ∈ modelFuncs) (hok : m.ok primTable = true) (I : Interp)
+    (hI : C18.SoundInterp I) (e : Prog) (he : ∀ p ∈ e.prims, p ∈ m.prims primTable) : Separable (e.eval I) :=
+  C18.model_separable primTable m hok I hI e he
+
+/-- **no state across calls, extended**: no forward path writes an attribute chain of `self`, a buffer, a class attribute,
+a module-level name or memo table, a process-wide torch switch, has a mutable default argument, or updates a caller's
+tensor in place (the engines' updates of their own input dictionary and in-place methods on local tensors aside) -/
+theorem effects_accounted : effectRows.all EffRow.ok = true := by decide +kernel
+
+/-- every batch-statistics layer is constructed with tracked running statistics (so that eval mode uses fixed statistics) -/
+theorem norm_layers_track_running_stats : normCtors.all (fun r => r.2.2 == 0) = true := by decide +kernel
 
 end DirectVerif.Bridge.C18
